@@ -615,7 +615,9 @@ def run(ctx):
         'thread\'s TLS table grow/rehash/shrink, rounds of forced collections), Thread objects either raw or owned by the '
         'main thread\'s collector (flag g, half of the cases), critical sections by lock/unlock, '
         'trylock loops, try-once sections (skipped when busy) and with-blocks (nested in lock order) with non-atomic counter increments, join + read of the '
-        'joined thread\'s trace; long-hold exclusion scenarios (one thread keeps a Mutex for 1.3 s and 2.5 s — thorough also 5 s and 11 s — '
+        'joined thread\'s trace; copies of Thread objects (a worker copies itself inside a try block, main copies a finished child) that start with '
+        'a TLS snapshot and must get their own exception context and collector (checked at every thread start); results published with '
+        'new_root / new_raw read by the joiner after join; managed objects held only by the TLS (keys with and without a __ prefix); long-hold exclusion scenarios (one thread keeps a Mutex for 1.3 s and 2.5 s — thorough also 5 s and 11 s — '
         'while three others wait by lock(), with-block, lock() after a failed trylock(); sections are logged with monotonic timestamps); sched_yield/nanosleep injected between instructions by the case seed.  Every worker '
         'program runs alone first, then all together; the schedule is whatever the kernel produces.  A case is '
         'non-trivial when the harness measured at least two threads inside their programs at the same time '
